@@ -153,7 +153,7 @@ def gen_doc(rng):
     libs = [l for l in GEN_LIBS if rng.random() < 0.55]
     rng.shuffle(libs)
     items = []
-    damaged = rng.random() < 0.5
+    damaged = rng.random() < 0.4
     n = 0
     for lib in libs:
         for _ in range(rng.randint(0, 3)):
@@ -984,7 +984,9 @@ def gen_ops(rng, maxops):
     cur = None          # ids believed present, per lib (only to aim the edits)
     if r < 0.8:
         s = spec()
-        ops.append(['load', s, rng.choice(MASKS)])
+        # a damaged document mostly comes with a mask (so that it loads, with recorded errors) and sometimes without (failed load)
+        faulty = s['kind'] == 'gen' and any(f for _, _, _, f in s['items'])
+        ops.append(['load', s, rng.choice(MASKS[3:]) if faulty and rng.random() < 0.5 else rng.choice(MASKS)])
         cur = s
     elif r < 0.93:
         ops.append(['new'])
@@ -1083,12 +1085,12 @@ def run(ctx):
 
 def _run(ctx, z):
     ctx.rule = ('random schedules: 2-5 document slots, each with its own sequence of new / load(bytes, ignore mask) / failed load / '
-                'ignoreErrors / add or remove an object in one of nine libraries / write, over generated documents (1.4.1, 1.5 and random '
+                'ignoreErrors / add or remove an object in one of nine libraries / write / read-only queries (len, triangleset(), scene.objects), over generated documents (1.4.1, 1.5 and random '
                 'namespace URIs, shuffled library order, foreign-namespace children, items damaged so that their loader raises a chosen '
                 'DaeError subclass, truncated or non-XML bytes) and the files of collada/tests/data, merged at random / round-robin / '
                 'block-sequentially. A case is non-trivial when at least two documents were live, the schedule switches document at '
                 'least twice, and the documents differ in namespace or ignore mask or one load failed; distinct = distinct schedule')
-    ncases = ctx.n(180, 5000)
+    ncases = ctx.n(180, 3600)
     maxops = 6 if not ctx.thorough else 10
     cases = [gen_case(ctx.rng, maxops) for _ in range(ncases)]
 
@@ -1126,20 +1128,25 @@ def _run(ctx, z):
         if len(cases) >= 50 and exposed == 0:
             raise core.Infra('no generated schedule exposes the leak of the leaky Lean machine: generator too weak')
 
-    # --- pristine solo runs (each in a fresh fork of the zygote)
-    t0 = time.time()
-    jobs = []
-    for c in cases:
-        for i in range(c['docs']):
-            jobs.append((doc_ops(c, i), False))
-    solo_flat = z.call('solo', jobs)
-    ctx.notes['solo_runs'] = len(jobs)
-    ctx.notes['solo_wall_s'] = round(time.time() - t0, 2)
-    solos = []
-    p = 0
-    for c in cases:
-        solos.append(solo_flat[p:p + c['docs']])
-        p += c['docs']
+    # --- pristine solo runs (each in a fresh fork of the zygote), computed chunk by chunk just before use
+    solos = {}
+    solo_stats = [0, 0.0]
+    CHUNK = 60
+
+    def solos_for(ci):
+        if ci not in solos:
+            t0 = time.time()
+            batch = list(range(ci, min(ci + CHUNK, len(cases))))
+            jobs = [(doc_ops(cases[n], i), False) for n in batch for i in range(cases[n]['docs'])]
+            flat = z.call('solo', jobs)
+            p = 0
+            for n in batch:
+                solos[n] = flat[p:p + cases[n]['docs']]
+                p += cases[n]['docs']
+            solos.pop(ci - 2 * CHUNK, None)
+            solo_stats[0] += len(jobs)
+            solo_stats[1] += time.time() - t0
+        return solos[ci]
 
     # --- interleaved runs, all in this process one after the other (history accumulates), monitor on
     monitor = Monitor()
@@ -1147,7 +1154,7 @@ def _run(ctx, z):
     mon_cases = []
     for ci, c in enumerate(cases):
         inter = run_inter((c, False), monitor)
-        diff = compare(c, inter, solos[ci])
+        diff = compare(c, inter, solos_for(ci))
         lives = sum(1 for f in inter['final'] if f['state'] != 'empty')
         switches = sum(1 for a, b in zip(c['sched'], c['sched'][1:]) if a[0] != b[0])
         nss = set(op_ns(op) for _, op in c['sched'] if op_ns(op))
@@ -1212,9 +1219,11 @@ def _run(ctx, z):
                                   'solo runs agree on this case (the document machine of Pyc/Model/Isolation.lean no longer describes the code)'
                                   % (bad[0], bad[1], bad[2], bad[3]),
                                   dict(kind='model', case=c, step=bad[0], model=bad[2], impl=bad[3]), found_input=False)
-        if ctx.elapsed() > (38 if not ctx.thorough else 480) and ci >= ncases // 3:
+        if ctx.elapsed() > (36 if not ctx.thorough else 470) and (ci + 1) % CHUNK == 0 and ci + 1 < ncases:
             ctx.notes['stopped_early_after_cases'] = ci + 1
             break
+    ctx.notes['solo_runs'] = solo_stats[0]
+    ctx.notes['solo_wall_s'] = round(solo_stats[1], 2)
 
     # --- (a) monitor hits: name the attribute, then look for a schedule on which it matters
     if mon_cases:
